@@ -142,7 +142,7 @@ Section LangEq.
     - intros (x & -> & lo & hi & c0 & Hin & H1 & H2 & Hx).
       destruct (cc_cover_out gap cs lo hi c0 Hwf Hin H1 H2) as [Hc|(Hs & H3 & H4)].
       + exists c0. split; [exact Hc|]. exists x. auto.
-      + exfalso. destruct Hwf as (_ & _ & _ & _ & _ & [Hg|Hg]); [|apply Hg; auto].
+      + exfalso. destruct Hwf as (_ & _ & _ & [Hg|Hg]); [|apply Hg; auto].
         eapply Hgap; eauto.
     - intros (c0 & Hin & x & -> & Hx).
       destruct (cc_cover_in gap cs c0 Hwf Hin) as (lo & hi & H1 & H2 & H3).
